@@ -93,16 +93,24 @@ def gen_program(rng, size_class):
         sid, gran = tgt["segs"][segname]
         return tgt["hdr"], sid, gran
 
+    start = rng.choice([0, 0, 1, 0x100, 0x7ff])
+    if start > tgt["max_addr"]["code"] - 8:
+        start = 0x100
+    org_first = rng.random() < 0.3
+    if org_first:
+        # the counter of the CODE segment is set before the first CPU statement (default target): it belongs to the
+        # segment, not to the CPU, and the CPU statement must leave it alone
+        lines.append("\torg %d" % start)
     lines.append("\tcpu %s" % tgt["cpu"])
     if tgt["style"] == "moto68k":
         lines.append("\tpadding off")
-    start = rng.choice([0, 0, 1, 0x100, 0x7ff])
-    lines.append("\torg %d" % start)
+    if not org_first:
+        lines.append("\torg %d" % start)
     pc = start
     c0 = ctx()
     first = (c0, start)
     nst = rng.randrange(1, {"small": 14, "medium": 60, "large": 400}[size_class])
-    stats = dict(emits=0, reserves=0, orgs=0, segsw=0, cpusw=0, bigstmt=0)
+    stats = dict(emits=0, reserves=0, orgs=0, segsw=0, cpusw=0, bigstmt=0, org_before_cpu=int(org_first), cpusw_keep_pc=0, save_restore=0)
     for _ in range(nst):
         if total >= budget:
             break
@@ -144,10 +152,14 @@ def gen_program(rng, size_class):
             evs.append("j:%d,%d,%d,%d" % (hdr, sid, gran, pc))
             stats["orgs"] += 1
         elif r < 0.92 and len(tgt["segs"]) > 1:
-            pcs[(tgt["cpu"], segname)] = pc
+            pcs[segname] = pc
+            back = segname
             segname = rng.choice([s for s in tgt["segs"] if s != segname])
             hdr, sid, gran = ctx()
             a = rng.randrange(0, tgt["max_addr"][segname] // 2)
+            wrap = rng.random() < 0.3 and tgt["max_addr"][back] - pcs[back] > 600
+            if wrap:
+                lines.append("\tsave")
             lines.append("\tsegment %s" % segname)
             # SEGMENT itself opens a record at the segment's own counter; the ORG that follows
             # overwrites that (empty) record
@@ -155,17 +167,43 @@ def gen_program(rng, size_class):
             pc = a
             evs.append("j:%d,%d,%d,%d" % (hdr, sid, gran, pc))
             stats["segsw"] += 1
+            if wrap:
+                # SAVE / SEGMENT ... / RESTORE (the pattern of the shipped include files): RESTORE returns to the saved
+                # segment, whose counter is where it was left; what follows directly must land there
+                for _k in range(rng.choice([0, 1, 2])):
+                    n = rng.choice([1, 2, 3, 8]) * gran
+                    if tgt["max_addr"][segname] - pc > 40:
+                        src, bs = data_stmt(rng, tgt, gran, n, n)
+                        lines.append(src)
+                        evs.append("e:" + bs.hex())
+                        pc += len(bs) // gran
+                        total += len(bs)
+                        stats["emits"] += 1
+                pcs[segname] = pc
+                lines.append("\trestore")
+                segname = back
+                hdr, sid, gran = ctx()
+                pc = pcs[back]
+                evs.append("j:%d,%d,%d,%d" % (hdr, sid, gran, pc))
+                stats["save_restore"] += 1
         else:
+            if segname == "code":
+                pcs["code"] = pc
             tgt = rng.choice(TARGETS)
             segname = "code"
             hdr, sid, gran = ctx()
             lines.append("\tcpu %s" % tgt["cpu"])
             if tgt["style"] == "moto68k":
                 lines.append("\tpadding off")
-            lines.append("\tsegment code")
-            a = rng.randrange(0, min(tgt["max_addr"]["code"] // 2, 0x7000))
-            lines.append("\torg %d" % a)
-            pc = a
+            if "code" in pcs and rng.random() < 0.4 and tgt["max_addr"]["code"] - pcs["code"] > 800:
+                # no SEGMENT / ORG: the CPU statement selects CODE, whose counter is where it was left
+                pc = pcs["code"]
+                stats["cpusw_keep_pc"] += 1
+            else:
+                lines.append("\tsegment code")
+                a = rng.randrange(0, min(tgt["max_addr"]["code"] // 2, 0x7000))
+                lines.append("\torg %d" % a)
+                pc = a
             evs.append("j:%d,%d,%d,%d" % (hdr, sid, gran, pc))
             stats["cpusw"] += 1
     entry = None
